@@ -222,10 +222,11 @@ def run_synthetic(spec, out, rng):
             continue
 
         # the header announces exactly the constants the body uses, and the function's namespace binds them
-        consts = re.findall(r"^# Constant (const\d+):", text, flags=re.M)
-        used = set(re.findall(r"\bconst\d+\b", "\n".join(l for l in text.splitlines() if not l.lstrip().startswith("#"))))
-        if used != set(consts) or any(c not in getattr(fn, "__globals__", {}) for c in consts):
-            out.violation({"kind": "header-constants-differ-from-body"}, {"text": text, "header": sorted(consts), "body": sorted(used)}, f"synthetic graph: header announces {sorted(consts)}, body uses {sorted(used)}")
+        from .c04 import free_names
+        used = free_names(text)
+        commented = set(re.findall(r"[A-Za-z_]\w*", "\n".join(l for l in text.splitlines() if l.lstrip().startswith("#"))))
+        if not used <= commented or any(c not in getattr(fn, "__globals__", {}) for c in used):
+            out.violation({"kind": "header-constants-differ-from-body"}, {"text": text, "body": sorted(used)}, f"synthetic graph: the body uses constants {sorted(used - commented)} that no header comment lists (or that are unbound)")
             continue
 
         def inputs(n_in=n_in):
